@@ -266,4 +266,4 @@ def c06(run):
            variants={"wfail": 0.5 if run.tier == "quick" else 1.0, "nowait": 0.5 if run.tier == "quick" else 1.0})
     # free schedules with a Stop somewhere in the middle of appends and Syncs, then a fresh Store on the same datastore
     from .conc import explore
-    explore(run, "c06", 3000 if run.tier == "quick" else 100000, ["C06_", "C04_head_is_top"])
+    explore(run, "c06", 6000 if run.tier == "quick" else 100000, ["C06_", "C04_head_is_top"])
